@@ -252,4 +252,36 @@ PROPS["C04"] = {
                     "a query parameter that is a strict PREFIX of a bound path (wrapper field wi vs bound wi.value) or that descends through a oneof whose other member is bound is outside the frame theorems' hypothesis (indep) - it is accepted by the code and by the model alike"],
 }
 
+PROPS["C20"] = {
+    "parts": [{"name": "gw", "pkg": "c20", "chk": "chk_c20_gw", "args": ["gw"]},
+              {"name": "strict", "pkg": "c20", "chk": "chk_c20_strict", "args": ["strict"]},
+              {"name": "trie", "pkg": "c20", "chk": "chk_c20_trie", "args": ["trie"]}],
+    "reasons": {"gw": {"1": "a string was accepted as a route template although its text is not the rendering of the accepted structure, or it has illegal path characters / ill-formed field paths (it was turned into some other route)",
+                       "2": "the rendering of a well-formed template was rejected or given another structure (verb, variables)",
+                       "4": "the parser panicked"},
+                "strict": {"1": "the strict parser accepted a string that is not in the grammar's language (or gave it a structure whose rendering is not the string)",
+                           "2": "the strict parser rejected (or mis-structured) the rendering of a well-formed template",
+                           "3": "the strict parser rejected (or mis-structured) a string of the language",
+                           "4": "the parser panicked"},
+                "trie": {"1": "the trie returned a template that does not match the looked-up path", "4": "the trie panicked"}},
+    "rule": "grammar-directed generation: abstract templates derived from httprule.bnf (literals of every pchar class incl. percent escapes and colons, *, **, variables with 1-3 field path components and 1-3 inner segments, optional verbs, the root template), rendered with and without the {a} shorthand; two single-edit mutants of every rendering (insert / delete / replace / duplicate / drop the leading slash, from an alphabet of structural characters, NUL, space, non-ASCII, broken escapes); noise strings; the near misses named in the property verbatim. Each string goes to the routing parser (+ Compile + runtime.NewPattern), to the strict parser, and sets of parsed templates to the trie with paths built to match or nearly match them",
+    "level_text": "Coq theorems: the opcode machine of a compiled template computes the template's own matching (compile correctness), opcodes can be read back into the structure. The language itself is decided by executable definitions (well-formedness + rendering) that are checked against both parsers on every generated string in both directions; the round trip parse(render t) = t for ALL well-formed t is NOT proved (see DESIGN): level partial.",
+    "level_note": "Trusted: Coq kernel, extraction, modelrun, Go harness, the generator's coverage of the grammar. The routing-parser model (tokenizer, recursive descent) equals the code on every generated string (hundreds of thousands in the thorough tier).",
+    "design_ref": "DESIGN.md §3 C20",
+    "assumptions": ["LITERAL is read as one or more pchars for path segments (an empty segment is not a template), zero or more for the verb: '/a:' is '/a' with an empty verb, '/:v' the root with a verb",
+                    "the routing parser additionally accepts a deep wildcard that is not last ('/a/**/b'), which runtime.Pattern supports; the property lists the classes that must be rejected and this is not one of them"],
+}
+
+PROPS["C03"] = {
+    "parts": [{"name": "route", "pkg": "c03", "chk": "chk_c03"}],
+    "reasons": {"route": {"1": "the request was not routed to the first binding (same HTTP method, description order) whose template matches, with the captured segments decoded exactly once: wrong binding, wrong captures, NotFound although one matches, or routed although none does",
+                          "4": "RouteHTTP panicked"}},
+    "rule": "1-3 targets with 1-2 services, 1-3 methods each and 0-3 bindings per method (templates derived from the grammar, a few mutated ones that must not become routes, 4 HTTP methods; methods without bindings get the default POST /package.Service/Method), added through PatternRouterWatcher.UpdateDesc; 6 requests per table: paths built from a binding's template with components from a pool of escapes (%20 %2F %25 %2520 %00 %zz %4, empty, colons, verbs, non-ASCII), damaged by trailing/double slashes, extra or missing components and verbs, the default gRPC paths, odd paths; URLs parsed by url.ParseRequestURI like net/http",
+    "level_text": "Coq theorems for ALL templates, tables and paths of the model: compile correctness (opcode machine = template matching), RouteHTTP's per-route step = template-level step, table lookup = first template-level match, routed => first matching binding and all earlier ones do not match, NotFound => none matches, single-segment captures decode exactly once (pct-encoding round trip for every byte string), reserved characters stay encoded in multi-segment captures. Tied to the code by the differential harness (model = code, and code = independent template-level specification).",
+    "level_note": "Trusted: Coq kernel, extraction, modelrun, Go harness; net/url's parsing of the request target (the model starts from the path as sent), grpc-gateway's runtime.Pattern as modelled (run_ops), the parser model's equality with the code (C20).",
+    "design_ref": "DESIGN.md §3 C03",
+    "assumptions": ["order across targets is the order in which targets were first added (one UpdateDesc per target in the harness); re-listing is C06's subject",
+                    "seg_ok (variables do not nest) is a hypothesis of the matching theorems; the tokenizer cannot produce nested variables and the check evaluates it on every parsed template"],
+}
+
 NOT_APPLICABLE = {}
